@@ -29,7 +29,7 @@ def run(ctx, pid, ns, which):
     ctx.traces += n
     ctx.evaluations += n
     ctx.nontrivial += n
-    ctx.exhaustive = True
+    ctx.parts[-1]['exhaustive_within_bound'] = True        # the bounded part is complete; the run as a whole also samples beyond it
     ctx.parts[-1].update({'cases': n, 'epoch_cases': len(tab['epoch']), 'limit_cases': len(tab['limit']), 'disagreements': nd})
     ctx.sample({'mc_tables_case': {'side_extrema': [0, 3, 5, 8][: max(2, ns // 2)], 'epoch_len': 2, 'window_half_samples': [3, 11], 'reset': True, 'centre': 'trough'},
                 'space': 'all side-extremum sets on %d samples x (epoch lengths dividing %d | all windows on the half-sample grid incl. None x reset x centring)' % (ns, ns)})
